@@ -37,6 +37,7 @@ def docs_universe():
         {"1": 0}, {"1": "one", "a": [10, 20]}, {"-": 1, "": 2, "a/b": 3, "~": 4, "é": 5}, {"a": "abc", "b": 1.0, "c": None, "d": True},
         {"a": [1, True, 1.0, [1], [True], {"x": 0}, {"x": False}]}, {"a": {"b": {"c": [0, {"d": 1}]}}, "e": []},
         {"01": 1, "0": [0]}, [[[]]], {"a": 1, "b": 2, "c": 3}, 5, None, True, {"+1": 1, "-1": 2},
+        {"n": {"a": None}, "m": [None, {"x": None, "y": 0}], "z": None},
     ]
     return ds
 
@@ -50,6 +51,11 @@ def lookalikes(v):
     elif isinstance(v, list): out += [[(True if x == 1 and x is not True else x) for x in v], v + [0], list(reversed(v))]
     elif isinstance(v, dict):
         out += [dict(reversed(list(v.items()))), {k: (False if x == 0 and x is not False else x) for k, x in v.items()}, {**v, "zz": 1}]
+        if v:
+            k0 = next(iter(v))
+            out += [{("zz" if k == k0 else k): x for k, x in v.items()},          # same size, one member renamed
+                    {("zz" if k == k0 else k): (5 if k == k0 else x) for k, x in v.items()},
+                    {k: (None if k == k0 else x) for k, x in v.items()}]
     elif isinstance(v, str): out += [v + "x"]
     elif v is None: out += [False, 0]
     return out
